@@ -16,7 +16,7 @@ func init() {
 	register("C09", checkC09)
 	describe("C09", Meta{
 		Technique: "effect/ownership (confinement) analysis on go/ssa with interprocedural write summaries: every store, map update, append/copy and write-assumed external call on the simulation path is traced to the root of the written address (parameter, package-level variable, captured variable, fresh memory), resolving go/ssa's spilled value receivers",
-		Claim:     "Decides the confinement clauses of C09: (R1) every Opcode.Simulate implementation and its callees write only memory reachable from the *VM argument (not through vm.Mach) or fresh memory — never through the process-wide opcode singleton, a package-level variable or the Machine shared by processors; (R2) nothing reachable from the per-tick simulation entry points writes package-level state; (R3) the per-processor worker touches vm.Processors only at its own procId; (R7) CopyState assigns no map or slice of the source VM to the copy; (R4) between telling the workers to step and collecting their completion messages the coordinator stores nothing into the processors' state; (R5) a loop that receives the workers' completion messages (a channel field several goroutines send on) builds no order-sensitive result (string concatenation, unsorted append) in arrival order. A necessary condition for schedule- and co-simulation-independence; data races inside one VM between the stepping goroutines and the driver, and DelayDistribution randomness, are not decided.",
+		Claim:     "Decides the confinement clauses of C09: (R1) every Opcode.Simulate implementation and its callees write only memory reachable from the *VM argument (not through vm.Mach) or fresh memory — never through the process-wide opcode singleton, a package-level variable or the Machine shared by processors; (R2) nothing reachable from the per-tick simulation entry points writes package-level state; (R3) the per-processor worker touches vm.Processors only at its own procId; (R7) CopyState assigns no map or slice of the source VM to the copy; (R4) between telling the workers to step and collecting their completion messages the coordinator stores nothing into the processors' state; (R5) a loop that receives the workers' completion messages (a channel field several goroutines send on) builds no order-sensitive result (string concatenation, unsorted append) in arrival order. A necessary condition for schedule- and co-simulation-independence; data races inside one VM between the stepping goroutines and the driver, and DelayDistribution randomness, are not decided. (NONBLOCK) no select with a default clause receives from a channel in the simulator packages.",
 		Note:      "Calls through interfaces fan out to every implementation in the module; external (stdlib) methods with pointer receivers are assumed to write their receiver unless on a short read-only list; call results of module functions are mapped through a one-level return summary. Summaries are depth-bounded (8).",
 		DesignRef: "DESIGN.md §2 C09",
 	})
